@@ -39,6 +39,18 @@ class P(Prop):
                 ar = {"mul": n + 1, "mul_assign": n + 1, "neg": n, "add": 2 * n, "sub": 2 * n, "translate": n + 1}[meth]
             for _ in range(per):
                 out.append(K.kernel_case(name, [K.rand_arg(rng) for _ in range(ar)], cls=name.split("::")[-1]))
+            if name.endswith("::add") or name.endswith("::sub"):
+                for _ in range(max(2, per)):
+                    n = ar // 2
+                    a = [rng.choice([1.5, -2.0, 3.0, 0.25, rng.uniform(-3, 3)]) for _ in range(n)]
+                    b = list(a)
+                    b[rng.choice([n - 1, 0, rng.randrange(n)])] = rng.choice([8.5, -1.0, 0.0])
+                    out.append(K.kernel_case(name, a + b, cls="addsub/mostly_equal"))
+                for _ in range(max(1, per // 2)):
+                    n = ar // 2
+                    a = [rng.choice([1.2e308, -1.1e308, 1.7976931348623157e308, 1e292]) for _ in range(n)]
+                    b = [rng.choice([1.1e308, -1.2e308, 1e292, 1.7976931348623157e308]) for _ in range(n)]
+                    out.append(K.kernel_case(name, a + b, cls="addsub/overflow"))
             if name.endswith("::translate"):
                 # shifts of the order of one unit in the last place of the constant (0.3 .. 3 ulps): the sum must still be the
                 # correctly rounded one
@@ -48,6 +60,10 @@ class P(Prop):
                     ulp = abs(C.fl(C.next_up(C.bits(abs(k0)))) - abs(k0))
                     args.append(ulp * rng.choice([0.3, 0.51, 0.75, 1.25, 1.5, 2.5, -0.75, -1.25]))
                     out.append(K.kernel_case(name, args, cls="translate/ulp_band"))
+                    # near-cancellation: the shift is minus the constant up to a few units in the last place
+                    args2 = list(args[:-1])
+                    args2.append(-(k0 + ulp * rng.choice([1.0, -1.0, 2.0, 3.0, -2.0])))
+                    out.append(K.kernel_case(name, args2, cls="translate/cancel"))
         for _ in range(10 if tier == "quick" else 200):
             n = rng.randint(0, 8)
             out.append(dict(op="polyn_translate", cs=[C.bits(K.rand_arg(rng)) for _ in range(n)], s=C.bits(K.rand_arg(rng)),
